@@ -211,9 +211,10 @@ type config struct {
 	buffer  bool
 	max     int64
 	backing string // memory | leveldb | kv | sqlite
+	aged    int    // on-disk stores: close/reopen cycles with since-deleted data before the history starts
 }
 
-var cfgRx = regexp.MustCompile(`^(?:buffer(?:\[max=(\d+)\])?\((\w+)\)|(\w+))$`)
+var cfgRx = regexp.MustCompile(`^(?:buffer(?:\[max=(\d+)\])?\((\w+)(?:\[aged=(\d+)\])?\)|(\w+)(?:\[aged=(\d+)\])?)$`)
 
 func parseConfig(s string) (*config, error) {
 	m := cfgRx.FindStringSubmatch(s)
@@ -221,15 +222,20 @@ func parseConfig(s string) (*config, error) {
 		return nil, fmt.Errorf("bad configuration %q", s)
 	}
 	c := &config{text: s}
-	if m[3] != "" {
-		c.backing = m[3]
+	if m[4] != "" {
+		c.backing = m[4]
+		c.aged, _ = strconv.Atoi(m[5])
 	} else {
 		c.buffer = true
 		c.backing = m[2]
+		c.aged, _ = strconv.Atoi(m[3])
 		c.max = 64
 		if m[1] != "" {
 			c.max, _ = strconv.ParseInt(m[1], 10, 64)
 		}
+	}
+	if c.aged > 0 && c.backing == "memory" {
+		return nil, fmt.Errorf("memory cannot be aged")
 	}
 	switch c.backing {
 	case "memory", "leveldb", "kv", "sqlite":
@@ -255,6 +261,40 @@ func (s *store) openBacking() (sorted.KeyValue, error) {
 		return sorted.NewKeyValue(jsonconfig.Obj{"type": "memory"})
 	}
 	return sorted.NewKeyValue(jsonconfig.Obj{"type": s.cfg.backing, "file": filepath.Join(s.dir, "db."+s.cfg.backing)})
+}
+
+// agedContent is what an [aged=n] store holds when a history starts (ranks): two keys that the exhaustive
+// generator never touches, so that the old tables stay relevant throughout.
+func agedContent(a *alphabet) [][]int {
+	return [][]int{{a.keyRank["ab"], a.valRank["v"]}, {a.keyRank["a\xff"], a.valRank["w|x:y\xff"]}}
+}
+
+// age gives an on-disk store a past before the history starts: its content is written over several
+// close + reopen generations (an LSM store then has tables below level 0 and a recycled journal), through
+// the same public interface; the reset line declares the content and the first observation checks it.
+func (s *store) age(a *alphabet) error {
+	pre := agedContent(a)
+	n := 3*s.cfg.aged + 3
+	for i := 0; i <= n; i++ {
+		b, err := s.openBacking()
+		if err != nil {
+			return err
+		}
+		if i < n {
+			p := pre[i%len(pre)]
+			if err := b.Set(a.key(p[0]), a.val(p[1])); err != nil {
+				return err
+			}
+		} else {
+			// last generation: give background work (leveldb table compaction) time to finish, so that
+			// every history of the run starts from the same files. Too short a pause costs coverage only.
+			time.Sleep(400 * time.Millisecond)
+		}
+		if err := b.Close(); err != nil {
+			return err
+		}
+	}
+	return nil
 }
 
 func (s *store) open() error {
@@ -506,10 +546,11 @@ type runner struct {
 	scratch  string
 	hangs    int
 	maxHangs int
+	template string // the aged, closed store every history of an [aged=n] configuration starts from
 }
 
-// observation after a mutator: the whole map, every key the history has touched so far, and the two
-// scans that put the largest touched key on the exclusive / inclusive side of a bound.
+// observation after a mutator: the whole map, every key the history has touched so far, the two scans that
+// put the largest touched key on the exclusive / inclusive side of a bound, and the inverted range.
 func observation(touched map[int]bool) []Op {
 	ops := []Op{{Op: "find"}}
 	var ks []int
@@ -523,6 +564,9 @@ func observation(touched map[int]bool) []Op {
 	if len(ks) > 0 {
 		lo, hi := ks[0], ks[len(ks)-1]
 		ops = append(ops, Op{Op: "find", A: lo, B: hi}, Op{Op: "find", A: hi, B: 0})
+		if hi > lo {
+			ops = append(ops, Op{Op: "find", A: hi, B: lo}) // inverted bounds: an empty range
+		}
 	}
 	return ops
 }
@@ -533,10 +577,30 @@ func (r *runner) run(h Hist) {
 		fatal(err)
 	}
 	s := &store{cfg: r.cfg, dir: dir}
+	if r.cfg.aged > 0 {
+		// aged once per run; every history starts from a copy of that (closed) store
+		if r.template == "" {
+			t, err := os.MkdirTemp(r.scratch, "aged")
+			if err != nil {
+				fatal(err)
+			}
+			if err := (&store{cfg: r.cfg, dir: t}).age(r.a); err != nil {
+				fatal(fmt.Errorf("ageing %s: %v", r.cfg.text, err))
+			}
+			r.template = t
+		}
+		if err := os.CopyFS(dir, os.DirFS(r.template)); err != nil {
+			fatal(err)
+		}
+	}
 	if err := s.open(); err != nil {
 		fatal(fmt.Errorf("open %s: %v", r.cfg.text, err))
 	}
-	r.lg.Emit(gate.Event{"ev": "reset", "cfg": r.cfg.text, "h": h.H, "leg": h.Leg})
+	pre := [][]int{}
+	if r.cfg.aged > 0 {
+		pre = agedContent(r.a)
+	}
+	r.lg.Emit(gate.Event{"ev": "reset", "cfg": r.cfg.text, "h": h.H, "leg": h.Leg, "pre": pre})
 	touched := map[int]bool{}
 	abandoned := false
 	step := func(op Op) bool {
